@@ -14,6 +14,8 @@ for d in sorted(os.listdir('/verif/seeded')):
     det = m.get('detection', {})
     caught = [k.split(':')[0] + ' (' + ', '.join(v['signatures'][:2]) + ')' for k, v in r.items() if v['caught']]
     hist = ('missed at first — ' + det.get('what_was_strengthened', '')) if det.get('first_run') == 'missed' else 'caught by the check as it was'
+    if m.get('neutralised_by_fix'):
+        hist += ' — NOTE: since fix %s this change no longer alters behaviour (%s)' % (m['neutralised_by_fix']['commit'], m['neutralised_by_fix']['why'][:200])
     rows.append("| %s | %s | %s | %s | %s |" % (d, m['property'], m['summary'].replace('|', '/')[:260], '; '.join(caught)[:300] or 'NOT CAUGHT', hist))
 text = marker + """ and which checks catch them
 
@@ -26,7 +28,9 @@ is kept under `/verif/seeded/<id>/` (patch.diff, demo/, meta.json, result.json) 
 against the checks with `lib/eval_seeded.py` (apply to /repo, run the owning quick check, restore).
 A miss was answered by more workload/observability, never by a stricter oracle; the strengthened
 check was then re-run on the unchanged tree at several seeds. Round a: one change per property;
-round b: a second change per property, with the first one declared "already taken".
+round b: a second change per property, with the first one declared "already taken"; round c: a
+third one, both earlier ideas declared taken. After every round of strengthening all kept changes
+are re-run (`lib/eval_all_seeded.sh`) to make sure nothing that was caught is lost again.
 
 | id | property | change | caught by (first signatures) | history |
 |---|---|---|---|---|
